@@ -42,19 +42,24 @@ def _min_dtype_for_encoding(data_encoding: encodings.DataEncoding):
             datatype += "16"
         elif nbits <= 32:
             datatype += "32"
-        else:
+        elif nbits <= 64:
             datatype += "64"
+        else:
+            # Wider than any fixed-size numpy integer: let numpy keep the Python integers (object dtype)
+            datatype = None
     elif isinstance(data_encoding, encodings.FloatDataEncoding):
         nbits = data_encoding.size_in_bits
         datatype = "float"
-        if nbits == 32:
+        if nbits == 32 and data_encoding.encoding != "MILSTD_1750A":
             datatype += "32"
         else:
+            # MIL-STD-1750A 32-bit values can be smaller than the smallest float32
             datatype += "64"
     elif isinstance(data_encoding, encodings.BinaryDataEncoding):
         datatype = "bytes"
     elif isinstance(data_encoding, encodings.StringDataEncoding):
-        datatype = "str"
+        # The raw value of a string parameter is its raw buffer (bytes), not text
+        datatype = "bytes"
     else:
         raise ValueError(f"Unrecognized data encoding type {data_encoding}.")
 
